@@ -98,17 +98,42 @@ Lemma C16_crash_recoverable_proof : forall P ops,
   let s := run P ops in
   (locked_keys s <> [] -> primary s <> [] /\ In (primary s) (locked_keys s) /\ In (primary s) (flushed_keys s)) /\
   (forall ops', primary s <> [] -> primary (run_from P s ops') = primary s) /\
-  (forall locks ks, (forall k, In k locks -> In k (flushed_keys s)) ->
-     let c := crun (crash_state locks) ks in
-     ccommitted c = [] /\ cstat c <> PCommitted /\
-     (forall k, In k locks -> In k ks -> ~ In k (clocks c) /\ In k (crolled c)) /\
-     (forall k, In k (clocks c) -> In k (flushed_keys s))).
+  (forall locks st0 ks, (forall k, In k locks -> In k (flushed_keys s)) ->
+     let c := crun (crash_state locks st0) ks in
+     (forall k ts, In (k, ts) (ccommitted c) -> decide st0 = PCommitted ts) /\
+     (forall k, In k (crolled c) -> forall ts, decide st0 <> PCommitted ts) /\
+     (forall k, In k locks -> In k ks -> ~ In k (clocks c) /\
+        match decide st0 with PCommitted ts => In (k, ts) (ccommitted c) | _ => In k (crolled c) end) /\
+     (forall k, In k (clocks c) -> In k (flushed_keys s)) /\
+     ((forall k, In k locks -> In k ks) ->
+        clocks c = [] /\
+        (forall ts, decide st0 = PCommitted ts -> crolled c = [] /\ forall k, In k locks -> In (k, ts) (ccommitted c)) /\
+        ((forall ts, decide st0 <> PCommitted ts) -> ccommitted c = [] /\ forall k, In k locks -> In k (crolled c))) /\
+     (forall envs served, resolved_seq envs (pstart s) (pend s) = Some served ->
+        forall k, In k locks -> exists r, In r served /\ rcontains r k = true)).
 Proof.
   intros P ops Hok s. destruct (pinv_run P ops Hok) as (H1 & H2 & _). split; [|split].
   - intros Hne. split; [apply H1; exact Hne|]. split; [apply H2, H1, Hne|apply locked_sub_flushed, H2, H1, Hne].
   - intros ops' Hp. apply primary_stable; exact Hp.
-  - intros locks ks Hsub. destruct (crash_resolvers locks ks) as (A & B & C & D).
-    repeat split; try assumption; try (apply C; assumption). intros k Hk. apply Hsub, D, Hk.
+  - intros locks st0 ks Hsub. destruct (crash_resolvers locks st0 ks) as (A & B & C & D & E). cbv zeta.
+    split; [exact A|]. split; [exact B|]. split; [intros k Hk Hks; apply (C k Hk Hks)|].
+    split; [intros k Hk; apply Hsub, D, Hk|]. split.
+    + intros Hall.
+      assert (Hcl : clocks (crun (crash_state locks st0) ks) = []).
+      { destruct (clocks (crun (crash_state locks st0) ks)) as [|k t]; [reflexivity|exfalso].
+        pose proof (D k (or_introl eq_refl)) as Hl. destruct (C k Hl (Hall k Hl)) as [Hn _]. apply Hn; left; reflexivity. }
+      split; [exact Hcl|]. split.
+      * intros ts Hd. split.
+        -- destruct (crolled (crun (crash_state locks st0) ks)) as [|k t]; [reflexivity|exfalso].
+           apply (B k (or_introl eq_refl) ts Hd).
+        -- intros k Hk. destruct (C k Hk (Hall k Hk)) as [_ Ho]. unfold out_of in Ho. rewrite Hd in Ho. exact Ho.
+      * intros Hnd. split.
+        -- destruct (ccommitted (crun (crash_state locks st0) ks)) as [|[k ts] t]; [reflexivity|exfalso].
+           apply (Hnd ts), (A k ts). left; reflexivity.
+        -- intros k Hk. destruct (C k Hk (Hall k Hk)) as [_ Ho]. unfold out_of in Ho.
+           destruct (decide st0) as [|ts|] eqn:Ed; [exact Ho|exfalso; apply (Hnd ts); reflexivity|exact Ho].
+    + intros envs served Hres k Hk. pose proof (binv_run P ops Hok) as [_ _ Hb].
+      destruct (Hb k (Hsub k Hk)) as (_ & _ & Cb & Db). eapply resolved_seq_covers; eassumption.
 Qed.
 
 Lemma C16_keepalive_and_latch_proof : forall P ops,
